@@ -1,12 +1,15 @@
 """C02 Encrypted file equals the documented format."""
 from .common import combined
 LEVEL = 'other'
-RULES = ('R02.a', 'R02.b', 'R02.c', 'R02.d', 'R02.f', 'R01.a', 'R01.c', 'R08.b', 'R13.b', 'R18.c', 'R06.b')
+RULES = ('R02.a', 'R02.b', 'R02.c', 'R02.d', 'R02.f', 'R01.a', 'R01.c', 'R08.b', 'R13.b', 'R18.c', 'R06.b',
+         'R10.s', 'R10.c', 'R10.d', 'R10.i', 'R09.a', 'R09.k', 'R09.e', 'R09.d')
 
 
 def run(prog, rec, tier):
-    combined(prog, rec, tier, RULES, driver=('layout', 'reader'), pipe=True, spawn=True,
+    combined(prog, rec, tier, RULES, driver=('layout', 'reader'), pipe=True, spawn=True, modes=('steps', 'counter'),
+             aes=('tables', 'key_schedule', ('block', 'enc'), ('block', 'dec'), 'key_load'),
              explanation='The ordered list of stream accesses of execute_encrypt, computed per thread count by abstract interpretation '
              'from a runcrypt object built by its own constructor, is compared byte offset by byte offset with the documented layout '
              '(magic, mode bytes, 38 zero bytes, T IV slots of 20 bytes from one array, body from 48+20T, tag at 10); IV chain '
-             'iv[0]=H(seed,strlen), iv[i]=H(iv[i-1]); padding and end-of-body table; stream i for thread i; nothing writes the input stream.')
+             'iv[0]=H(seed,strlen), iv[i]=H(iv[i-1]); padding and end-of-body table; stream i for thread i; nothing writes the input stream; '
+             'the cipher streams are the SP 800-38A modes over FIPS-197 AES-128 by term conformance (C09/C10 rules).')
